@@ -80,7 +80,8 @@ type Exec struct {
 	noteSeen   map[string]bool
 	entry      *State
 	rf         string // skolem region for frame conditions
-	modRegs    []string
+	rootExits  []exitRec
+	modRegs    []modReg // regions named by the root's modifies clause, with their heap
 	inputs     []InputVar
 	quiet      int // >0: suppress obligations (spec-side inlining)
 	stack      []*ssa.Function
@@ -289,6 +290,8 @@ func (x *Exec) cover(st *State, name string) {
 	}
 	x.obls = append(x.obls, ob)
 }
+
+type modReg struct{ reg, key string }
 
 // ---------- values ----------
 
